@@ -141,10 +141,10 @@ def run(ctx):
                         'queue client / QueueProtocolAPI are testify mocks', 'TLS off',
                         'TLC bounds: IP and method lists of <= 2 entries, <= 3 configurations per process']
     # ---- the specification: mechanism vs reference --------------------------------------------------
-    ctx.tlc_mc('RPC_MC', 'RPC_MCq.cfg' if q else 'RPC_MC.cfg', workers=4, timeout=3600, coverage=not q)
-    ctx.tlc_mc('RPC_MC', 'RPC_MC2q.cfg' if q else 'RPC_MC2.cfg', workers=4, timeout=3600)
+    ctx.tlc_mc('RPC_MC', 'RPC_MCq.cfg' if q else 'RPC_MC.cfg', workers=4, timeout=7200)
+    ctx.tlc_mc('RPC_MC', 'RPC_MC2q.cfg' if q else 'RPC_MC2.cfg', workers=4, timeout=7200)
     if not q:
-        ctx.tlc_mc('RPC_MC', 'RPC_MC3.cfg', workers=4, timeout=3600)
+        ctx.tlc_mc('RPC_MC', 'RPC_MC3.cfg', workers=4, timeout=7200)
     # candidate: the mechanism (unary interceptor only) lets a streaming method run for anybody
     r = ctx.tlc_mc('RPC_MC', 'RPC_MCstream.cfg', workers=2, timeout=1800, expect_violation=True, count=False)
     ctx.extra['tlc_candidate_stream_ungated'] = bool(r['violation'])
